@@ -76,12 +76,16 @@ def cat_cases(rnd, per_fn):
             ln = rnd.choice([0, 1, max(0, room - 34), max(0, room - 2), max(0, room - 1), room, rnd.randint(0, max(1, room))])
             slen = rnd.choice([1, max(1, ln - 1), ln if ln else 1, ln + 1, max(1, room - 1), room if room else 1]) if hasn else 0
             gap = rnd.choice([0, 1, 4])
-            d = 1 + rnd.choice([0, 2])
-            s = d + dmax + gap
-            n = s + ln + 3
+            if rnd.random() < 0.5:       # source behind dest
+                d = 1 + rnd.choice([0, 2])
+                s = d + dmax + gap
+            else:                        # source in front of dest (the other copy loop of the bumper functions)
+                s = 1 + rnd.choice([0, 2])
+                d = s + ln + 1 + gap
+            n = max(s + ln + 1, d + dmax) + 2
             a = blank(n)
-            put(a, d, letters(dl, 65), dl < dmax)
             put(a, s, letters(ln), True)
+            put(a, d, letters(dl, 65), dl < dmax)
             out.append(case(fn, w, d, dmax, s, slen, a))
     return out
 
